@@ -35,3 +35,55 @@ def workloop():
     out = os.path.join(core.HARNESS, "wlx", "workloop_extracted.go")
     open(out, "w").write("// Code generated from pkg/kgo/atomic_maybe_work.go by vlib/extract.py; DO NOT EDIT.\n" + s)
     return out
+
+
+def pollgate():
+    src = open(os.path.join(core.REPO, "pkg/kgo/consumer.go")).read()
+    names = ["waitAndAddPoller", "unaddPoller", "allowRebalance", "waitAndAddRebalance", "waitAndAddRebalanceSilent",
+             "waitAndAddRebalanceMaybeSignal", "unaddRebalance"]
+    out = ['// Code generated from pkg/kgo/consumer.go (poll-gate methods) by vlib/extract.py; DO NOT EDIT.', 'package gatex', '',
+           'import (', '\t"context"', '\t"math"', '', '\t"verif/harness/ctl"', ')', '',
+           '// stand-ins for the parts of Client / cfg the gate methods touch',
+           'type cfgStub struct {', '\tblockRebalanceOnPoll bool', '\tonBlocked            func(context.Context, *clientStub)', '}',
+           'type clientStub struct {', '\tcfg cfgStub', '\tctx context.Context', '}',
+           'type consumer struct {', '\tcl            *clientStub', '\tpollWaitMu    ctl.Mutex', '\tpollWaitC     *ctl.Cond', '\tpollWaitState uint64', '}', '',
+           'var _ = math.MaxUint32', '']
+    for n in names:
+        m = re.search(r"^func \(c \*consumer\) %s\((?:.*?)\) \{\n(?:.*\n)*?\}\n" % n, src, re.M)
+        if not m:
+            raise core.Infra("extractor: poll-gate method %s not found in consumer.go" % n)
+        body = m.group(0)
+        if re.search(r"\bsync\.|\batomic\.|\bxsync\.|<-|\bchan\b", body):
+            raise core.Infra("extractor: poll-gate method %s uses a primitive the rewriter does not know" % n)
+        out.append(body)
+    if not re.search(r"pollWaitState uint64", src) or not re.search(r"c\.pollWaitC = sync\.NewCond\(&c\.pollWaitMu\)", src):
+        raise core.Infra("extractor: poll-gate state declaration changed shape")
+    p = os.path.join(core.HARNESS, "gatex", "gate_extracted.go")
+    open(p, "w").write("\n".join(out))
+    return p
+
+
+def xmutex():
+    src = open(os.path.join(core.REPO, "pkg/kgo/internal/xsync/synctest_mutex.go")).read()
+    s = _sub(src, r"^//go:build synctests\n\n", "", "build tag", count=1)
+    s = s.replace("package xsync\n", "package xmx\n", 1)
+    s = _sub(s, r'import "sync"\n', 'import (\n\t"sync"\n\n\t"verif/harness/ctl"\n)\n', "sync import", count=1)
+    s = _sub(s, r"chan struct\{\}\n", "*ctl.Chan\n", "channel-typed fields")
+    # channel creation: filled at creation / empty
+    s = _sub(s, r"(?m)^(\s*)([\w.]+) = make\(chan struct\{\}, 1\)\n\s*\2 <- struct\{\}\{\}\n", lambda m: '%s%s = ctl.NewChanFull("%s")\n' % (m.group(1), m.group(2), m.group(2).split(".")[-1]), "filled channel creation")
+    s = _sub(s, r"(?m)^(\s*)([\w.]+) = make\(chan struct\{\}, 1\)\n", lambda m: '%s%s = ctl.NewChan("%s")\n' % (m.group(1), m.group(2), m.group(2).split(".")[-1]), "empty channel creation")
+    # select with default, one case
+
+    def sel(m):
+        ind, recv, send, body1, body2 = m.group(1), m.group(3), m.group(4), m.group(5), m.group(6)
+        call = "%s.TryRecv()" % recv if recv else "%s.TrySend()" % send
+        outer = ind[:-1] if ind.endswith("\t") else ind
+        return "%sif %s {\n%s%s} else {\n%s%s}\n" % (outer, call, body1, outer, body2, outer)
+    s = _sub(s, r"(?m)^[ \t]*select \{\n([ \t]*)case (<-([\w.]+)|([\w.]+) <- struct\{\}\{\}):\n((?:.*\n)*?)\1default:\n((?:.*\n)*?)[ \t]*\}\n", sel, "select-with-default")
+    s = _sub(s, r"(?m)^(\s*)<-([\w.]+)$", r"\1\2.Recv()", "blocking receives")
+    s = _sub(s, r"(?m)^(\s*)([\w.]+) <- struct\{\}\{\}$", r"\1\2.Send()", "blocking sends")
+    if re.search(r"<-|\bselect\b|\bchan\b", s):
+        raise core.Infra("extractor: synctest_mutex.go has a channel operation the rewriter does not know")
+    out = os.path.join(core.HARNESS, "xmx", "xmutex_extracted.go")
+    open(out, "w").write("// Code generated from pkg/kgo/internal/xsync/synctest_mutex.go by vlib/extract.py; DO NOT EDIT.\n" + s)
+    return out
